@@ -217,6 +217,9 @@ static void ProcessFile(char const* FileName, LongWord Offset) {
         }
 
         else if (InpHeader == FileHeaderDataRec) {
+            if (Gran == 0) {
+                FormatError(FileName, getmessage(Num_FormatInvRecordHeaderMsg));
+            }
             if (!Read4(SrcFile, &InpStart)) {
                 ChkIO(FileName);
             }
@@ -366,6 +369,9 @@ static void MeasureFile(char const* FileName, LongWord Offset) {
         ReadRecordHeader(&Header, &CPU, &Segment, &Gran, FileName, f);
 
         if (Header == FileHeaderDataRec) {
+            if (Gran == 0) {
+                FormatError(FileName, getmessage(Num_FormatInvRecordHeaderMsg));
+            }
             if (!Read4(f, &Adr)) {
                 ChkIO(FileName);
             }
